@@ -189,7 +189,8 @@ def setup(rec, reach):
     _cur["rec"] = rec
     core.wrap(parser, "read_3d_structure", rec, post=_post, label="parser.read_3d_structure")
     for n in ("read_3d_structure", "parse_cif", "parse_pdb", "group_atoms", "filter_clashing_atoms"):
-        reach.add(getattr(parser, n), n)
+        if hasattr(parser, n):  # helpers that are not part of the public interface may be refactored away
+            reach.add(getattr(parser, n), n)
 
 
 def cases(shard, nshards, seed, tier):
